@@ -318,9 +318,7 @@ void Server::Private::run()
       continue; // timeout
     }
 
-    if (pollEvent.flags & Socket::Poll::readFlag)
-      ((ClientImpl *)pollEvent.socket)->_callback->onRead();
-    else if (pollEvent.flags & Socket::Poll::writeFlag)
+    if (pollEvent.flags & Socket::Poll::writeFlag)
     {
       ClientImpl &client = *(ClientImpl *)pollEvent.socket;
       if (!client._sendBuffer.isEmpty())
@@ -330,7 +328,10 @@ void Server::Private::run()
         {
         case -1:
           if (Socket::getLastError() == 0) // EWOULDBLOCK
-            continue;
+          {
+            sent = 0;
+            break;
+          }
           // no break
         case 0:
           client._sendBuffer.free();
@@ -347,9 +348,13 @@ void Server::Private::run()
         client._sendBuffer.free();
         _sockets.set(client, client._suspended ? 0 : Socket::Poll::readFlag);
         client._callback->onWrite();
+        continue;
       }
-      continue;
+      if (!(pollEvent.flags & Socket::Poll::readFlag))
+        continue;
     }
+    if (pollEvent.flags & Socket::Poll::readFlag)
+      ((ClientImpl *)pollEvent.socket)->_callback->onRead();
     else if (pollEvent.flags & Socket::Poll::acceptFlag)
     {
       ListenerImpl &listener = *(ListenerImpl *)pollEvent.socket;
